@@ -857,6 +857,14 @@ def systematic():
             [[a, b, c, a, b, c]], [[a], [b], [c], [a], [b]]]
     for e in cmps:
         out.append([[[["simple", e]]]])
+    # parenthesised groups whose content itself begins / ends with a parenthesised group or a set literal
+    inset = ["set", pa, False, [["IntPosLiteral", "1"], ["IntPosLiteral", "2"]]]
+    P1, P2, P3 = ["paren", [[a, b]]], ["paren", [[b, c]]], ["paren", [[a], [c]]]
+    inner = [[[P1], [P2]], [[P1, P2]], [[P3, P2]], [[P1], [inset]], [[P1, inset]], [[P1]], [[P1], [b], [P2]], [[P3, b, P1]]]
+    for e in inner:
+        g = ["paren", e]
+        for ctx in ([[g]], [[a, g]], [[g, a]], [[a], [g]], [[g], [a]], [[a, g, b]], [[["paren", [[g]]]]], [[["paren", [[a, g]]]]]):
+            out.append([[[["simple", ctx]]]])
     # observation structure
     A, B, C = ["simple", [[a]]], ["simple", [[b]]], ["simple", [[c]]]
     quals = [["within", ["IntPosLiteral", "5"]], ["within", ["IntPosLiteral", "+5"]], ["within", ["FloatPosLiteral", "5.5"]],
@@ -878,6 +886,13 @@ def systematic():
         [[[A]], [[["compound", [[[B]], [[C]]]]]]], [[[["compound", [[[A]], [[B]]]]]], [[C]]],
     ]
     out += obs
+    C1, C2 = ["compound", [[[A], [B]]]], ["compound", [[[B, C]]]]
+    inner_obs = [[[[C1], [C2]]], [[[C1]], [[C2]]], [[[C1, C2]]], [[[C1]]], [[[C1], [B], [C2]]], [[[C1]], [[B]], [[C2]]]]
+    for e in inner_obs:
+        g = ["compound", e]
+        out += [[[[g]]], [[[A, g]]], [[[g, A]]], [[[A], [g]]], [[[g]], [[A]]], [[[A]], [[g]]],
+                [[[["qual", g, quals[0]]]]], [[[["qual", g, quals[4]], A]]], [[[["compound", [[[g]]]]]]],
+                [[[["qual", ["compound", [[[A, g]]]], quals[6]]]]]]
     return out
 
 
@@ -919,6 +934,8 @@ def a_const(s):
 
 def a_comp(s):
     k = s["k"]
+    if k == "text":       # a plain str handed to ObjectPath: _ObjectPathComponent.create_ObjectPathComponent decides
+        return "(create_component_str %s)" % esc_u(s["n"])
     if k == "basic":
         return "(ABasic %s)" % esc_u(s["n"])
     if k == "ref":
@@ -948,7 +965,11 @@ def a_qual(s):
 def a_expr(s):
     k = s["k"]
     if k == "cmp":
-        return "(ECmp %s %s %s %s)" % (CLS[s["cls"]], a_path(s["lhs"]), a_const(s["rhs"]), c_bool(s["neg"]))
+        if "lhs_text" in s:   # the left-hand side given as text: ObjectPath.make_object_path
+            lhs = "(match make_object_path %s with Ok p => p | Raise _ => APath [] [] end)" % esc_u(s["lhs_text"])
+        else:
+            lhs = a_path(s["lhs"])
+        return "(ECmp %s %s %s %s)" % (CLS[s["cls"]], lhs, a_const(s["rhs"]), c_bool(s["neg"]))
     if k == "bool":
         return "(EBool %s %s)" % (c_bool(s["op"] == "AND"), c_list([a_expr(x) for x in s["ops"]]))
     if k == "obs":
@@ -1000,9 +1021,24 @@ class ProgGen:
     def name(self):
         return self.rng.choice(["a", "b", "name", "hashes", "SHA-256", "x-y", "value", "src_ref", "_z", "A1", "windows-pebinary-ext"])
 
+    def text_comp(self):
+        """a path step written as text; `name`/`idx` say what it is meant to be"""
+        rng = self.rng
+        r = rng.random()
+        if r < 0.2:
+            n = rng.choice(["src_ref", "dst_ref", "parent_ref", "x_ref"])
+            return {"k": "text", "n": n, "name": n, "idx": None}
+        name = rng.choice(["a", "b", "name", "sections", "values", "hashes", "SHA-256", "x-y", "_z", "A1", "arguments"])
+        if r < 0.65:
+            idx = rng.choice([0, 1, 5, 9, 10, 12, 100, 255, -1, -9, -12, "*", "*", 2 ** 40])
+            return {"k": "text", "n": "%s[%s]" % (name, idx), "name": name, "idx": idx}
+        return {"k": "text", "n": name, "name": name, "idx": None}
+
     def comp(self):
         rng = self.rng
         r = rng.random()
+        if rng.random() < 0.25:
+            return self.text_comp()
         if r < 0.65:
             return {"k": "basic", "n": self.name()}
         if r < 0.9:
@@ -1024,7 +1060,12 @@ class ProgGen:
             rhs = self.const()
         else:
             rhs = self.const(["str", "int", "float", "hex", "bin", "ts"])
-        return {"k": "cmp", "cls": cls, "lhs": self.path(typ), "rhs": rhs, "neg": rng.random() < 0.35}
+        out = {"k": "cmp", "cls": cls, "lhs": self.path(typ), "rhs": rhs, "neg": rng.random() < 0.35}
+        if rng.random() < 0.2:    # the whole left-hand side as text
+            comps = [self.text_comp() for _ in range(rng.choice([1, 2, 3]))]
+            out["lhs"] = {"type": typ, "comps": comps}
+            out["lhs_text"] = typ + ":" + ".".join(c["n"] for c in comps)
+        return out
 
     # comparison level: returns (spec, level) with level 0 = proptest, 1 = AND chain, 2 = OR chain
     def cexpr(self, typ, d, wg):
@@ -1126,6 +1167,28 @@ def prog_systematic():
               cp("AND", cp("AND", A, B), C), cp("FOLLOWEDBY", cp("FOLLOWEDBY", A, B), C), par(par(A)), {"k": "obs", "e": A},
               {"k": "obs", "e": cp("AND", A, B)}]:
         out.append(e)
+    # parenthetical nodes whose content begins / ends with a parenthetical node or a list constant
+    inl = {"k": "cmp", "cls": "In", "lhs": pa, "rhs": {"k": "list", "v": [{"k": "int", "v": 1}, {"k": "int", "v": 2}]}, "neg": False}
+    p1, p2 = par(AND(a, b)), par(AND(b, c))
+    for g in [par(OR(p1, p2)), par(AND(p1, p2)), par(OR(p1, inl)), par(p1), par(OR(p1, b, p2))]:
+        for e in [g, AND(a, g), AND(g, a), OR(a, g), AND(a, g, b), par(g), par(AND(a, g))]:
+            out.append({"k": "obs", "e": e})
+    c1, c2 = par(cp("OR", A, B)), par(cp("AND", B, C))
+    for g in [par(cp("OR", c1, c2)), par(cp("FOLLOWEDBY", c1, c2)), par(cp("AND", c1, c2)), par(c1), par(cp("OR", c1, B, c2))]:
+        for e in [g, cp("AND", A, g), cp("AND", g, A), cp("OR", A, g), cp("FOLLOWEDBY", g, A), Q(g, q1), cp("AND", Q(g, q2), A), par(g),
+                  Q(par(cp("AND", A, g)), q3)]:
+            out.append(e)
+    # path steps given as text (ObjectPath(type, ["name[12]", ...]) and "type:a.b[1]" as left-hand side)
+    for idx in (0, 9, 10, 12, 255, -1, -12, "*"):
+        comps = [{"k": "text", "n": "sections[%s]" % idx, "name": "sections", "idx": idx}, {"k": "text", "n": "name", "name": "name", "idx": None}]
+        e = {"k": "cmp", "cls": "Equality", "lhs": {"type": "file", "comps": comps}, "rhs": {"k": "int", "v": 1}, "neg": False}
+        out.append({"k": "obs", "e": e})
+        out.append({"k": "obs", "e": dict(e, lhs_text="file:sections[%s].name" % idx)})
+    for n in ("src_ref", "SHA-256", "hashes"):
+        comps = [{"k": "text", "n": "a", "name": "a", "idx": None}, {"k": "text", "n": n, "name": n, "idx": None}]
+        e = {"k": "cmp", "cls": "Equality", "lhs": {"type": "x", "comps": comps}, "rhs": {"k": "int", "v": 1}, "neg": False}
+        out.append({"k": "obs", "e": e})
+        out.append({"k": "obs", "e": dict(e, lhs_text="x:a." + n)})
     return out
 
 
@@ -1160,9 +1223,21 @@ def prog_feature_of(s):
     return None
 
 
+def comp_struct(c):
+    """(kind, name, index) a component specification is meant to be"""
+    if c["k"] == "text":
+        if c["idx"] is None:
+            return ("ref" if c["name"].endswith("_ref") else "basic", c["name"], None)
+        return ("list", c["name"], c["idx"])
+    if c["k"] == "list":
+        return ("list", c["n"], c["i"])
+    return (c["k"], c["n"], None)
+
+
 def prog_star(s):
     """a later list component with a hyphenated name and index *: prints as 'x-y'[*]"""
-    return s["k"] == "cmp" and any(c["k"] == "list" and "-" in c["n"] and c["i"] == "*" for c in s["lhs"]["comps"][1:])
+    return s["k"] == "cmp" and any(comp_struct(c)[0] == "list" and "-" in comp_struct(c)[1] and comp_struct(c)[2] == "*"
+                                   for c in s["lhs"]["comps"][1:])
 
 
 def prog_features(spec):
@@ -1186,6 +1261,98 @@ def prog_neutralise(spec, ids):
         if "C10-quoted-key-star-attributeerror" in ids and prog_star(s):
             lhs = s["lhs"]
             s["lhs"] = {"type": lhs["type"], "comps": lhs["comps"][:1] + [
-                dict(c, i=0) if (c["k"] == "list" and "-" in c["n"] and c["i"] == "*") else c for c in lhs["comps"][1:]]}
+                {"k": "list", "n": comp_struct(c)[1], "i": 0}
+                if (comp_struct(c)[0] == "list" and "-" in comp_struct(c)[1] and comp_struct(c)[2] == "*") else c
+                for c in lhs["comps"][1:]]}
+            s.pop("lhs_text", None)
         return s
     return prog_walk(spec, f)
+
+
+# ------------------------------------------------------------------ what a specification means
+# (the generator's own reading of the object it asked for; independent of the implementation and of the Coq model)
+
+def q(s):
+    return "".join(c if (32 <= ord(c) <= 126 and c not in '\\"()[];,') else "\\%06X" % ord(c) for c in s)
+
+
+def pm_const(s):
+    k = s["k"]
+    if k == "str":
+        return "S(%s)" % q(s["v"])
+    if k == "int":
+        return "I(%d)" % s["v"]
+    if k == "float":
+        t = s["v"]
+        neg = t.startswith("-")
+        ip, _, fp = t.lstrip("+-").partition(".")
+        return "F(%s,%s,%s)" % ("-" if neg else "+", ip.lstrip("0"), fp.rstrip("0"))
+    if k == "bool":
+        return "B(t)" if s["v"] else "B(f)"
+    if k == "hex":
+        return "H(%s)" % q(s["v"])
+    if k == "bin":
+        return "Y(%s)" % q(s["v"])
+    if k == "ts":
+        y, mo, d, h, mi, sec, us = s["v"]
+        return "T(%d,%d,%d,%d,%d,%d,%s)" % (y, mo, d, h, mi, sec, ("%06d" % us).rstrip("0"))
+    if k == "list":
+        return "L[%s]" % ";".join(pm_const(x) for x in s["v"])
+    raise ValueError(k)
+
+
+def pm_path(p):
+    steps = []
+    for c in p["comps"]:
+        kind, name, idx = comp_struct(c)
+        steps.append("k(%s)" % q(name))
+        if kind == "list":
+            steps.append("*" if idx == "*" else "i(%d)" % int(idx))
+    return "P(%s)[%s]" % (q(p["type"]), ";".join(steps))
+
+
+PM_OP = {"Equality": "=", "GreaterThan": ">", "LessThan": "<", "GreaterThanEqual": ">=", "LessThanEqual": "<=", "In": "IN",
+         "Like": "LIKE", "Matches": "MATCHES", "IsSubset": "ISSUBSET", "IsSuperset": "ISSUPERSET"}
+
+
+def pm_tree(s):
+    k = s["k"]
+    if k == "cmp":
+        op = PM_OP[s["cls"]]
+        if s["cls"] == "Equality" and s["rhs"]["k"] == "list":
+            op = "IN"
+        return ("leaf", "Cmp(%s,%s,%s,%s)" % (pm_path(s["lhs"]), op, "1" if s["neg"] else "0", pm_const(s["rhs"])))
+    if k in ("bool", "cpd"):
+        tag = ("Bool" if k == "bool" else "Cpd", s["op"])
+        items = [pm_tree(x) for x in s["ops"]]
+        if items and items[0][0] == "op" and items[0][1] == tag:      # an unparenthesised first operand continues the chain
+            items = items[0][2] + items[1:]
+        return ("op", tag, items)
+    if k == "obs":
+        if s["e"]["k"] in ("obs", "cpd"):
+            return pm_tree(s["e"])
+        return ("wrap", "Obs", pm_tree(s["e"]))
+    if k == "paren":
+        return ("wrap", "Par", pm_tree(s["e"]))
+    qs = s["q"]
+    if qs["k"] == "repeat":
+        qt = "Rep(I(%d))" % qs["n"]
+    elif qs["k"] == "within":
+        qt = "Win(I(%d))" % qs["n"]
+    else:
+        qt = "SS(%s;%s)" % (pm_const(qs["a"]), pm_const(qs["b"]))
+    return ("qual", pm_tree(s["e"]), qt)
+
+
+def pm_render(t):
+    if t[0] == "leaf":
+        return t[1]
+    if t[0] == "op":
+        return "%s(%s)[%s]" % (t[1][0], t[1][1], ";".join(pm_render(x) for x in t[2]))
+    if t[0] == "wrap":
+        return "%s[%s]" % (t[1], pm_render(t[2]))
+    return "Qual[%s;%s]" % (pm_render(t[1]), t[2])
+
+
+def prog_meaning(spec):
+    return pm_render(pm_tree(spec))
